@@ -13,6 +13,7 @@ ATOMS = [
     ("true", True),
     ("lit_a", "a"),
     ("lit_b", "b"),
+    ("lit_A", "A"),
     ("long", "x" * 20),
     ("s_int", "1"),
     ("s_float", "1.5"),
@@ -25,7 +26,7 @@ ATOMS = [
     ("eobj", {}),
 ]
 ATOM = dict(ATOMS)
-STRING_ATOMS = ["lit_a", "lit_b", "long", "s_int", "s_float", "s_bool", "s_date", "s_time", "s_dt", "s_empty"]
+STRING_ATOMS = ["lit_a", "lit_b", "lit_A", "long", "s_int", "s_float", "s_bool", "s_date", "s_time", "s_dt", "s_empty"]
 
 VALUES = list(ATOMS)
 VALUES += [(f"L({n})", [v]) for n, v in ATOMS]
